@@ -433,6 +433,9 @@ func (w *World) registerPackIntrinsics() {
 		if _, isCSRF := f["OAuthState"]; isCSRF {
 			return tuple(&BytesVal{s: packCSRF(e, p)}, nilIface)
 		}
+		if _, isSess := f["AccessToken"]; isSess {
+			return tuple(&BytesVal{s: e.packSession(f)}, nilIface)
+		}
 		e.unsupported("msgpack.Marshal of this type is not modelled")
 		return nil
 	}
@@ -444,6 +447,9 @@ func (w *World) registerPackIntrinsics() {
 			e.unsupported("msgpack.Unmarshal into %T", iv.val)
 		}
 		f, _ := e.structFieldsByName(p)
+		if _, isSess := f["AccessToken"]; isSess {
+			return e.unpackSession(data, f)
+		}
 		if _, isCSRF := f["OAuthState"]; !isCSRF {
 			e.unsupported("msgpack.Unmarshal into this type is not modelled")
 		}
@@ -497,4 +503,103 @@ func (e *Exec) idealCFB(fn *ssa.Function, args []Value) (Value, bool) {
 		return tuple(&BytesVal{s: ct.args[1].args[2]}, nilIface), true
 	}
 	return tuple(&BytesVal{s: mkUF("CFBdec", SStr, key, ct)}, nilIface), true
+}
+
+var sessStrFields = []string{"AccessToken", "IDToken", "RefreshToken", "Email", "User", "PreferredUsername"}
+
+func (e *Exec) timePtrSec(v Value) *Term {
+	p := v.(*Pointer)
+	if isNilPtr(p) {
+		return mkInt(-1)
+	}
+	sec, _ := e.timeParts(e.load(p))
+	return sec
+}
+
+// packSession: msgpack of a SessionState as an ideal injective function of its
+// serialised fields (timestamps at second granularity; at most 2 groups).
+func (e *Exec) packSession(f map[string]*Pointer) *Term {
+	var args []*Term
+	for _, n := range sessStrFields {
+		args = append(args, e.load(f[n]).(*Term))
+	}
+	args = append(args, e.bytesTermOrEmpty(e.load(f["Nonce"])))
+	args = append(args, e.timePtrSec(e.load(f["CreatedAt"])), e.timePtrSec(e.load(f["ExpiresOn"])))
+	gs, ok := e.load(f["Groups"]).(*SliceVal)
+	if !ok || gs.n > 2 {
+		e.unsupported("session with more than 2 groups in the msgpack model")
+	}
+	args = append(args, mkInt(int64(gs.n)))
+	for k := 0; k < 2; k++ {
+		if k < gs.n {
+			args = append(args, e.sliceElems(gs)[k].(*Term))
+		} else {
+			args = append(args, mkStr(""))
+		}
+	}
+	return mkUF("pack_session", SStr, args...)
+}
+
+func (e *Exec) unpackSession(data *Term, f map[string]*Pointer) Value {
+	var args []*Term
+	if data.op == "uf:pack_session" {
+		args = data.args
+	} else {
+		if !e.branch(mkUF("unpack_session_ok", SBool, data)) {
+			return e.newError("msgpack: invalid data")
+		}
+		for i := 0; i < 12; i++ {
+			s := SStr
+			if i >= 7 && i <= 9 {
+				s = SInt
+			}
+			args = append(args, mkUF(fmt.Sprintf("unpack_session_%d", i), s, data))
+		}
+		// arbitrary decodable bytes: group count 0..2, timestamps absent or sane
+		e.assume(mkAnd(mkGe(args[9], mkInt(0)), mkLe(args[9], mkInt(2)), mkGe(args[7], mkInt(-1)), mkGe(args[8], mkInt(-1))))
+	}
+	for i, n := range sessStrFields {
+		e.store(f[n], args[i])
+	}
+	e.store(f["Nonce"], &BytesVal{s: args[6]})
+	setTime := func(name string, sec *Term) {
+		if e.branch(mkEq(sec, mkInt(-1))) {
+			e.store(f[name], &Pointer{})
+			return
+		}
+		t := e.errorsPkgType("time", "Time")
+		obj := e.newObject(t, timeVal(sec, mkInt(0)), "time")
+		e.store(f[name], &Pointer{obj: obj})
+	}
+	setTime("CreatedAt", args[7])
+	setTime("ExpiresOn", args[8])
+	n := e.concretize(args[9], "group count")
+	var gs []Value
+	for k := int64(0); k < n; k++ {
+		gs = append(gs, args[10+k])
+	}
+	if n == 0 {
+		e.store(f["Groups"], &SliceVal{isNil: true})
+	} else {
+		e.store(f["Groups"], e.mkSlice(types.Typ[types.String], gs))
+	}
+	return nilIface
+}
+
+func (w *World) registerSessionCodecIntrinsics() {
+	I := w.intrinsics
+	sp := repoModule + "/pkg/apis/sessions"
+	I[sp+".lz4Compress"] = func(e *Exec, fn *ssa.Function, a []Value) Value {
+		return tuple(&BytesVal{s: mkUF("lz4", SStr, e.bytesTerm(a[0]))}, nilIface)
+	}
+	I[sp+".lz4Decompress"] = func(e *Exec, fn *ssa.Function, a []Value) Value {
+		d := e.bytesTerm(a[0])
+		if d.op == "uf:lz4" {
+			return tuple(&BytesVal{s: d.args[0]}, nilIface)
+		}
+		if e.branch(mkUF("unlz4_ok", SBool, d)) {
+			return tuple(&BytesVal{s: mkUF("unlz4", SStr, d)}, nilIface)
+		}
+		return tuple(&SliceVal{isNil: true}, e.newError("lz4: invalid data"))
+	}
 }
